@@ -924,6 +924,12 @@ JOB_KINDS["echobits"] = EchoBits
 def jobs_C14(rng, tier):
     js = []
     for _ in range(scale_n(tier, 6, 40)):
+        # tanh on a fine grid over [-40, 40] (every multiple of 1/16, shuffled): a shortcut for "saturated" arguments that kicks in
+        # too early is one or two ulps off in a narrow band only (wave-6 seed C14f: +-1 reported for 18.02 < |v| < 19.06)
+        grid = [F(k, 16) for k in range(-640, 641)]
+        rng.shuffle(grid)
+        part = grid[: 400]
+        js.append(Relation("pointwise", ("tanh", ECHO), [part, part], dict(k="tanh", domain_ok=True), mode="f", es=[("tanh", ECHO), ECHO]))
         js.append(EchoBits([rng.choice(SPECIAL_BITS + ["0000000000000005", "800fffffffffffff", "7fefffffffffffff", "ffefffffffffffff",
                                                       "0008000000000000", "3cb0000000000000"]) for _ in range(rng.randint(4, 16))]))
     for _ in range(scale_n(tier, 40, 400)):
